@@ -642,6 +642,189 @@ fn scan_sites(ts: &TokenStream, esc_lets: &[String], sites: &mut Vec<RawSite>, f
     }
 }
 
+
+// ------------------------------------------------------------------------------------------------
+// name-keyed LOOKUPS: `<table>.get(key)` / `.contains(key)` / `.contains_key(key)` / `.get_mut(key)` in emit/** and
+// lower/**. The tables are keyed by the plain Incan name, so a key derived from `escape_keyword` misses for
+// keyword names. A light, flow-insensitive taint: an identifier is "escaped" if it is bound by a `let` (or
+// `if let` / `while let` pattern, or closure parameter) whose right-hand side / receiver statement mentions
+// `escape_keyword` or another escaped identifier.
+// ------------------------------------------------------------------------------------------------
+
+fn toks(ts: &TokenStream) -> Vec<String> {
+    let mut v = Vec::new();
+    let mut glue = false;
+    norm_into(ts.clone(), &mut v, &mut glue);
+    v
+}
+
+fn is_open(t: &str) -> bool {
+    t == "(" || t == "[" || t == "{"
+}
+fn is_close(t: &str) -> bool {
+    t == ")" || t == "]" || t == "}"
+}
+
+fn pattern_idents(pat: &[String], out: &mut Vec<String>) {
+    // cut a type annotation `: T` at depth 0
+    let mut depth = 0i32;
+    let mut end = pat.len();
+    for (i, t) in pat.iter().enumerate() {
+        if is_open(t) {
+            depth += 1;
+        } else if is_close(t) {
+            depth -= 1;
+        } else if t == ":" && depth == 0 {
+            end = i;
+            break;
+        }
+    }
+    for (i, t) in pat[..end].iter().enumerate() {
+        let c = t.chars().next().unwrap_or(' ');
+        let is_field_label = pat.get(i + 1).map(|n| n == ":").unwrap_or(false);
+        if (c.is_ascii_lowercase() || c == '_') && t != "mut" && t != "ref" && t != "_" && !is_field_label
+            && t.chars().all(|c| c.is_ascii_alphanumeric() || c == '_')
+            && !pat.get(i + 1).map(|n| n == "::" || n == "(" || n == "{").unwrap_or(false)
+        {
+            out.push(t.clone());
+        }
+    }
+}
+
+fn mentions(ts: &[String], tainted: &[String]) -> bool {
+    // a token right after `.` is a field or method name, not a variable
+    ts.iter().enumerate().any(|(i, t)| {
+        t == "escape_keyword" || (tainted.iter().any(|x| x == t) && !(i > 0 && ts[i - 1] == "."))
+    })
+}
+
+fn tainted_idents(v: &[String]) -> Vec<String> {
+    let mut tainted: Vec<String> = Vec::new();
+    for _pass in 0..4 {
+        let before = tainted.len();
+        let mut i = 0;
+        while i < v.len() {
+            if v[i] == "let" {
+                let cond = i > 0 && (v[i - 1] == "if" || v[i - 1] == "while");
+                // pattern up to `=` at depth 0
+                let mut j = i + 1;
+                let mut depth = 0i32;
+                while j < v.len() {
+                    if is_open(&v[j]) {
+                        depth += 1;
+                    } else if is_close(&v[j]) {
+                        depth -= 1;
+                    } else if v[j] == "=" && depth == 0 {
+                        break;
+                    }
+                    j += 1;
+                }
+                let pat = &v[i + 1..j.min(v.len())];
+                // right-hand side
+                let mut k = j + 1;
+                let mut d = 0i32;
+                while k < v.len() {
+                    if cond && v[k] == "{" && d == 0 {
+                        break;
+                    }
+                    if is_open(&v[k]) {
+                        d += 1;
+                    } else if is_close(&v[k]) {
+                        if d == 0 {
+                            break;
+                        }
+                        d -= 1;
+                    } else if v[k] == ";" && d == 0 {
+                        break;
+                    }
+                    k += 1;
+                }
+                let rhs = &v[(j + 1).min(v.len())..k.min(v.len())];
+                if mentions(rhs, &tainted) {
+                    let mut ids = Vec::new();
+                    pattern_idents(pat, &mut ids);
+                    for id in ids {
+                        if !tainted.contains(&id) {
+                            tainted.push(id);
+                        }
+                    }
+                }
+            }
+            // closure parameters: `|pat|` right after `(` `,` or `=`; tainted if the statement so far mentions a tainted name
+            if v[i] == "|" && i > 0 && (v[i - 1] == "(" || v[i - 1] == "," || v[i - 1] == "=") {
+                if let Some(off) = v[i + 1..].iter().position(|t| t == "|") {
+                    let pat = &v[i + 1..i + 1 + off];
+                    let mut b = i;
+                    while b > 0 && v[b - 1] != ";" {
+                        b -= 1;
+                    }
+                    if mentions(&v[b..i], &tainted) {
+                        let mut ids = Vec::new();
+                        pattern_idents(pat, &mut ids);
+                        for id in ids {
+                            if !tainted.contains(&id) {
+                                tainted.push(id);
+                            }
+                        }
+                    }
+                }
+            }
+            i += 1;
+        }
+        if tainted.len() == before {
+            break;
+        }
+    }
+    tainted
+}
+
+struct RawLookup {
+    table: String,
+    method: String,
+    key: String,
+    escaped: bool,
+}
+
+fn scan_lookups(ts: &TokenStream, out: &mut Vec<RawLookup>) {
+    let v = toks(ts);
+    let tainted = tainted_idents(&v);
+    let mut i = 0;
+    while i + 3 < v.len() {
+        let m = v[i + 2].as_str();
+        if v[i + 1] == "." && matches!(m, "get" | "contains" | "contains_key" | "get_mut") && v[i + 3] == "(" {
+            let recv = &v[i];
+            let c = recv.chars().next().unwrap_or(' ');
+            if (c.is_ascii_lowercase() || c == '_') && recv.chars().all(|c| c.is_ascii_alphanumeric() || c == '_') {
+                let mut k = i + 4;
+                let mut d = 0i32;
+                while k < v.len() {
+                    if is_open(&v[k]) {
+                        d += 1;
+                    } else if is_close(&v[k]) {
+                        if d == 0 {
+                            break;
+                        }
+                        d -= 1;
+                    }
+                    k += 1;
+                }
+                let key = &v[i + 4..k.min(v.len())];
+                let literal_key = key.len() == 1 && (key[0].starts_with('"') || key[0].starts_with('\'') || key[0].chars().all(|c| c.is_ascii_digit()));
+                let literal_key = literal_key || (key.len() == 2 && key[0] == "&" && key[1].starts_with('"'));
+                if !key.is_empty() && !literal_key {
+                    out.push(RawLookup {
+                        table: recv.clone(),
+                        method: m.to_string(),
+                        key: key.join(" "),
+                        escaped: mentions(key, &tainted),
+                    });
+                }
+            }
+        }
+        i += 1;
+    }
+}
+
 fn extract(repo: &Path) -> String {
     let mut errors: Vec<String> = Vec::new();
 
@@ -771,6 +954,8 @@ fn extract(repo: &Path) -> String {
     let mut escape_src = String::new();
     let mut sites: Vec<Value> = Vec::new();
     let mut fixed_all: Vec<String> = Vec::new();
+    let mut lookups: Vec<Value> = Vec::new();
+    let mut seen_lookup: std::collections::HashMap<String, usize> = std::collections::HashMap::new();
     for p in &files {
         let rel = p.strip_prefix(&emit_dir).unwrap_or(p).to_string_lossy().to_string();
         let Some(f) = read_file(p, &mut errors) else { continue };
@@ -795,6 +980,15 @@ fn extract(repo: &Path) -> String {
             let mut fixed = Vec::new();
             scan_sites(&func.tokens, &lets, &mut raw, &mut fixed, false);
             fixed_all.extend(fixed);
+            let mut lk = Vec::new();
+            scan_lookups(&func.tokens, &mut lk);
+            for l in lk {
+                let base = format!("emit/{}:{}:{}.{}({})", rel, func.name, l.table, l.method, l.key);
+                let n = seen_lookup.entry(base.clone()).or_insert(0);
+                *n += 1;
+                let id = if *n == 1 { base.clone() } else { format!("{}#{}", base, n) };
+                lookups.push(json!({"id": id, "table": l.table, "method": l.method, "key": l.key, "escaped": l.escaped}));
+            }
             for s in raw {
                 let base = format!("{}:{}:{}", rel, func.name, if s.fmt == "{}" { s.expr.clone() } else { format!("{}<-{}", s.fmt, s.expr) });
                 let n = seen.entry(base.clone()).or_insert(0);
@@ -821,6 +1015,32 @@ fn extract(repo: &Path) -> String {
     fixed_all.sort();
     fixed_all.dedup();
 
+    // lookups in lower/** (same tables are filled and queried there)
+    let lower_dir = repo.join("src/backend/ir/lower");
+    let mut lfiles = Vec::new();
+    rs_files(&lower_dir, &mut lfiles);
+    for p in &lfiles {
+        let rel = p.strip_prefix(&lower_dir).unwrap_or(p).to_string_lossy().to_string();
+        let Some(f) = read_file(p, &mut errors) else { continue };
+        let mut fns = Vec::new();
+        let mut none = None;
+        collect_fns(&f.items, false, &mut fns, &mut none);
+        for func in &fns {
+            if func.is_test {
+                continue;
+            }
+            let mut lk = Vec::new();
+            scan_lookups(&func.tokens, &mut lk);
+            for l in lk {
+                let base = format!("lower/{}:{}:{}.{}({})", rel, func.name, l.table, l.method, l.key);
+                let n = seen_lookup.entry(base.clone()).or_insert(0);
+                *n += 1;
+                let id = if *n == 1 { base.clone() } else { format!("{}#{}", base, n) };
+                lookups.push(json!({"id": id, "table": l.table, "method": l.method, "key": l.key, "escaped": l.escaped}));
+            }
+        }
+    }
+
     json!({
         "rust_keywords": rust_keywords,
         "is_keyword_body": is_keyword_body,
@@ -833,6 +1053,7 @@ fn extract(repo: &Path) -> String {
         "escape_src": escape_src,
         "sites": sites,
         "fixed_temporaries": fixed_all,
+        "lookups": lookups,
         "errors": errors,
     })
     .to_string()
